@@ -59,7 +59,7 @@ func (e *Encoder) Encode(idx *Index) error {
 
 func (e *Encoder) encode(idx *Index, footer bool) error {
 	// TODO: support extensions
-	if idx.Version > EncodeVersionSupported {
+	if idx.Version < DecodeVersionSupported.Min || idx.Version > EncodeVersionSupported {
 		return ErrUnsupportedVersion
 	}
 
